@@ -115,7 +115,10 @@ CHECKS = {
  "C03": {
   "category": "proof",
   "text": "Proved for ARBITRARY page tables, granule positions and states: the packet/page loops of the read path terminate within the fuel the model computes "
-          "(measure: pages + packets left), the decoder's buffer writes stay inside its 2*n1 cells from any state, granule trimming stays inside what blockin "
+          "(measure: pages + packets left); every loop of the seek path terminates too (Term_lemmas.v: the scan of ov_raw_seek, the packet-discarding and the "
+          "sample-discarding loop of ov_pcm_seek and the fetch they call give results independent of the fuel beyond the measure of the state, ov_raw_seek and "
+          "ov_pcm_seek with any amount of extra fuel compute the same result, ov_pcm_seek_page never reports the out-of-fuel marker - its one non-terminating loop "
+          "in the C code, the page rewind, was found by the thorough exploration and repaired); the decoder's buffer writes stay inside its 2*n1 cells from any state, granule trimming stays inside what blockin "
           "produced for every granule value, the source is closed only by ov_clear and never after a failed open. Memory safety and termination of the C code "
           "itself on arbitrary bytes - libogg framing, header parsing, byte-level bisection, the API glue - are decided per run: mutated real files (page header "
           "fields with/without CRC repair, dropped/duplicated/reordered/foreign pages, garbage, lying granules, missing EOS, damaged packets), random bytes and "
